@@ -27,7 +27,9 @@ def main():
     n = 10 if ck.tier == "quick" else 150
     cases = []
     for _ in range(n):
-        c = gen.gen_solver_case(ck.rng, ck.tier, strats=("filter", "fixedinterval"), qmax=3, max_steps=3, calibs=("none", "mle", "mle_nocorr"))
+        c = gen.gen_solver_case(ck.rng, ck.tier, strats=("filter", "fixedinterval"), qmax=3, max_steps=3, calibs=("none", "mle", "mle_nocorr", "dyn"))
+        if c["calib"] == "dyn":
+            c["stopgrad"] = False   # "wherever no stop-gradient has been requested": solver_dynamic(stop_gradient_through_calibration=False)
         c["f"] = [[[Fr(cf) / 4, ex] for cf, ex in p] for p in c["f"]]
         c["param"] = ck.rng.choice(["vf", "u0", "base", "noise"])
         c["theta"] = float(Fr(ck.rng.choice([3, 5, 7, 9, 12]), 8))
@@ -129,11 +131,16 @@ def main():
                     keep = [k for k in range(len(jv)) if k not in bad]
                     jv, rv, fd = [jv[k] for k in keep], [rv[k] for k in keep], [fd[k] for k in keep]
                 elif qn == "loss" and i in tres and "error" not in tres[i] and all(math.isfinite(x) for x in tres[i]["jvp"]["loss"] + tres[i]["rev"]["loss"]) \
-                        and close(tres[i]["jvp"]["loss"], fd, scale, RT):
+                        and close(tres[i]["jvp"]["loss"], tres[i]["rev"]["loss"], scale, RT_MODES) \
+                        and (close(tres[i]["jvp"]["loss"], fd, scale, RT) or (not badf and close(tres[i]["jvp"]["loss"], jv, scale, RT))):
+                    # finite, mode-consistent and equal to the finite forward derivative (or to the directional derivative) once the
+                    # SVD-based least squares is replaced by solve_triu
                     ck.report("C16.loss.lstsq_svd.non-finite-gradient",
                               f"{cfgs}: the gradient of the time-series loss w.r.t. {c['param']} is NaN; finite and correct with solve_triu instead of the "
                               "SVD-based least squares (repeated singular values of the innovation factor)", {"case": jc, "jvp": jv, "rev": rv})
-                    continue
+                    # continue the comparison with the repaired derivatives (the qr_r rule may still make them differ from the directional one)
+                    jv, rv = list(tres[i]["jvp"]["loss"]), list(tres[i]["rev"]["loss"])
+                    bad = []
                 elif i in nres and "error" not in nres[i] and all(math.isfinite(x) for x in nres[i]["jvp"][qn] + nres[i]["rev"][qn]):
                     ck.report("C16.vector_norm-at-zero.non-finite",
                               f"{cfgs}: the derivative of {qn} w.r.t. {c['param']} is NaN; finite when backend.linalg.vector_norm is replaced by a norm "
@@ -179,7 +186,7 @@ def main():
     if not pr["ok"] and not ck.violations:
         ck.report("C16.proof", f"proof obligations no longer check: {pr['errors']}",
                   {"broken": pr.get("failed_at", "Props/C16.v"), "errors": pr["errors"]}, nofail=True)
-    ck.finish(rule="fixed-grid solves (3 factorisations x filter/fixed-interval smoother x TS0/TS1 x none/MLE) with a scalar parameter entering the vector "
+    ck.finish(rule="fixed-grid solves (3 factorisations x filter/fixed-interval smoother x TS0/TS1 x none/MLE/dynamic with stop_gradient_through_calibration=False) with a scalar parameter entering the vector "
               "field, the initial value, the prior base scale or the observation noise; jax.jvp vs jax.jacrev (1e-8) vs 4th-order central differences (2e-5) "
               "for means, standard deviations, output scales and the marginal-likelihood loss; mismatches are re-evaluated with an exact QR derivative to "
               "separate the known qr_r finding (at singular factors, where that derivative is NaN, on the regularised neighbour of the case); non-trivial: all; distinct by full input")
